@@ -112,6 +112,59 @@ def wire_op(op):
     return [2, rc.wire_tree(op[1]), op[2]]
 
 
+def descendants(w):
+    """every widget below w (list/window items, the centred widget, ColumnWidget's columns)"""
+    from simpleline.render.widgets import Widget
+    out = []
+    kids = []
+    items = getattr(w, "_items", None)
+    if isinstance(items, list):
+        kids += [x.widget if hasattr(x, "widget") else x for x in items]
+    if isinstance(getattr(w, "_w", None), Widget):
+        kids.append(w._w)
+    cols = getattr(w, "_columns", None)
+    if isinstance(cols, list):
+        for c in cols:
+            if isinstance(c, (list, tuple)) and len(c) == 2 and isinstance(c[1], list):
+                kids += [x for x in c[1] if isinstance(x, Widget)]
+    for k in kids:
+        if isinstance(k, Widget):
+            out.append(k); out += descendants(k)
+    return out
+
+
+def render_watching(obj, width):
+    """obj.render(width), remembering what every descendant showed right after ITS OWN render inside it: drawing the
+    siblings afterwards must not change a child's lines ("rendering one widget never changes how another renders")."""
+    snaps = {}
+    patched = []
+    for d in descendants(obj):
+        if id(d) in snaps or "render" in d.__dict__:
+            continue
+        snaps[id(d)] = None
+
+        def mk(d):
+            orig = d.render
+
+            def r(width, *a, **k):
+                res = orig(width, *a, **k)
+                snaps[id(d)] = list(d.get_lines())
+                return res
+            return r
+        d.render = mk(d); patched.append(d)
+    try:
+        live = rc.impl_render(obj, width)
+    finally:
+        for d in patched:
+            del d.__dict__["render"]
+    changed = None
+    if live[0] == 0:
+        for d in patched:
+            if snaps[id(d)] is not None and list(d.get_lines()) != snaps[id(d)]:
+                changed = (type(d).__name__, snaps[id(d)][:6], list(d.get_lines())[:6]); break
+    return live, changed
+
+
 def run_impl(tree, ops):
     """drive a long-lived object; returns per render/other op: (long-lived result, fresh result | None, current spec, width)"""
     cur = copy.deepcopy(tree)
@@ -120,9 +173,11 @@ def run_impl(tree, ops):
     out = []
     for op in ops:
         if op[0] == "render":
-            live = rc.impl_render(obj, op[1])
+            live, changed = render_watching(obj, op[1])
             fresh = rc.impl_render(rc.build(cur), op[1])
             out.append((live, fresh, copy.deepcopy(cur), op[1]))
+            if changed:
+                CHILD_CHANGED.append((copy.deepcopy(cur), op[1], changed))
         elif op[0] == "add":
             path = tuple(op[1])
             idx = len(spec_at(cur, path)[3] if spec_at(cur, path)[0] == "list" else spec_at(cur, path)[2])
@@ -226,12 +281,22 @@ def isolated(spec, w):
     return rc.impl_render(rc.build(spec), w)
 
 
+CHILD_CHANGED = []
+
+
 def evaluate(chk, cases, stream):
     res_m = lib.model_run("c16", [[rc.wire_tree(t), [wire_op(o) for o in ops]] for t, ops in cases])
     nbad = 0
     for (tree, ops), m in zip(cases, res_m):
+        del CHILD_CHANGED[:]
         outs = run_impl(tree, ops)
         chk.count()
+        for cur_, w_, (tn, before, after) in CHILD_CHANGED[:1]:
+            nbad += 1
+            chk.violation("child-changed-by-sibling",
+                          "rendering %s at width %d: a contained %s showed %r right after its own render and %r once its siblings were "
+                          "drawn (C16: rendering one widget never changes how another renders)" % (json.dumps(cur_)[:160], w_, tn, before, after),
+                          dict(kind="c16", tree=tree, ops=[list(o) for o in ops], output=0), found=True)
         chk.hist("stream=" + stream); chk.hist("ops=%d" % len(ops))
         chk.hist("renders=%d" % sum(1 for o in ops if o[0] == "render")); chk.hist("adds=%d" % sum(1 for o in ops if o[0] == "add"))
         if nontrivial(tree, ops):
